@@ -87,8 +87,11 @@ func Concretise(id string, b AbsBehaviour, seed int64) wl.Workload {
 		}
 		return bytes.Repeat([]byte{byte(a.ID)}, a.Len)
 	}
-	chID := map[int]uint16{0: 0, 1: 1, 2: 65535}
-	scID := map[int]uint16{0: 0, 1: 1, 2: 65535}
+	// representatives of the small abstract ids, chosen per behaviour: low ids, the top of the range approached from below
+	// (id-indexed tables grow towards 65535), and a climbing series
+	reps := [][3]uint16{{0, 1, 65535}, {0, 65534, 65535}, {0, 300, 40000}, {0, 64512, 65535}}[r.Intn(4)]
+	chID := map[int]uint16{0: reps[0], 1: reps[1], 2: reps[2]}
+	scID := map[int]uint16{0: 0, 1: reps[1], 2: reps[2]}
 	md := func(m []AbsKV) []wl.KV {
 		var out []wl.KV
 		for _, kv := range m {
